@@ -269,6 +269,7 @@ static void v_once(const plan_t *p)
     tagmask = es == 1 ? 0xff : es == 2 ? 0xffff : 0xffffff;
     next_tag = 0; maxreach = 0;
     simrand_reset(p->cfg[CF_JUNK] * 977 + p->cfg[CF_MAXN], RS_UNIFORM);
+    memset(vec, (int)(unsigned char)p->cfg[CF_JUNK], sizeof vec);
     for (s = 0; s < NV; s++) {
         uint64_t x = p->cfg[CF_XTOR0 + s];
         mv[s].slot = s; holder[s] = s; mv[s].n = 0;
